@@ -532,7 +532,8 @@ func (ecd Encoder) decodePublic(pt *rlwe.Plaintext, values FloatSlice, logprec f
 				}
 
 			case []complex128:
-				copy(values, buffCmplx)
+				// only the first slots entries of the buffer belong to this plaintext
+				copy(values, buffCmplx[:slots])
 			case []*big.Float:
 
 				slots := utils.Min(len(values), slots)
